@@ -180,7 +180,10 @@ where
   /// safe "get-or-insert" operations.
   pub fn entry(&self, key: K) -> Entry<'_, K, V, H> {
     let shard = self.shared.store.get_shard(&key);
-    let guard = shard.map.write();
+    let mut guard = shard.map.write();
+
+    // An expired entry that has not been collected yet counts as absent.
+    self.shared.discard_if_expired(shard, &mut guard, &key);
 
     if guard.contains_key(&key) {
       Entry::Occupied(OccupiedEntry {
